@@ -142,7 +142,8 @@ def run(prog, rep, tier, repo):
         # inputs cannot be modified: non-output params are shared slices / scalars
         ins = b.sig['inputs'] if b.sig else []
         muts = [t for t in ins if t.startswith('&mut')]
-        want_mut = 1 if Rk.kind == 'inplace' else 0
+        # the in-place kernels are the ones named *_mut (macro naming convention of vops.rs); recognition of the loop idiom is not needed here
+        want_mut = 1 if (Rk.kind == 'inplace' or b.key.endswith('_mut')) else 0
         key = 'operands-unchanged:%s' % b.key
         if len(muts) == want_mut:
             rep.ok('operands-unchanged', key, 'signature %s: inputs other than the in-place target are shared borrows' % ins)
